@@ -614,7 +614,7 @@ def aclose_wakes_manage(chk, rule):
                     return [("raise", INVALID)]
                 return None
 
-            for o in Interp(prog, ac, decide=decide, call_hook=hook, unroll=1).run():
+            for o in Interp(prog, ac, decide=decide, call_hook=hook, unroll=1, inline=lambda f, ct, cls=cls: f.cls is not None and f.cls.qual in cls.mro and not f.is_async and f.name.startswith("_") and not f.name.startswith("__")).run():
                 chk.count()
                 if o.kind == "raise" and o.value == INVALID:
                     chk.bad(rule, ac.qual, "aclose completes a future that is already done and does not handle the InvalidStateError", node=ac.node, stmt="aclose-double-complete")
